@@ -99,9 +99,18 @@ def data_item(sim, fe, it, r, idx):
             else:
                 allowed = {'data' if acc else 'ValidationFailure', 'InterestTimeout'}
         else:
-            allowed = {'data' if acc else 'ValidationFailure'}
-            if vdone >= deadline - 1:
-                allowed.add('InterestTimeout')
+            # the property makes no difference between the front-ends: a validator that is still running at the deadline yields a
+            # timeout.  (Known finding: the legacy front-end awaits the validator outside the lifetime - see known_findings.json.)
+            if vdone < deadline - 1:
+                allowed = {'data' if acc else 'ValidationFailure'}
+            elif vdone > deadline + 1:
+                allowed = {'InterestTimeout'}
+                if label in ('data', 'ValidationFailure'):
+                    r.bad(f'C05/legacy/data/validator-outlived-deadline/{"payload-returned" if label == "data" else "verdict-delivered"}',
+                          f'validator finished at {vdone} ms, deadline {deadline} ms, outcome {label} (verdict {it["verdict"]!r}, lat={it["lat"]})')
+                    allowed = {label}
+            else:
+                allowed = {'data' if acc else 'ValidationFailure', 'InterestTimeout'}
         if label not in allowed:
             r.bad(f'C05/{fe}/data/outcome/{label}/expected={"|".join(sorted(allowed))}/verdict={it["verdict"]!r}',
                   f'lat={it["lat"]} dsig={dsig} site={out[2].get("site") if out and out[0] == "exc" else ""}')
@@ -384,6 +393,12 @@ def pair_item(sim, fe, it, r, idx):
                 {'InterestTimeout'} if vdone > deadline + 1 else {'data' if acc else 'ValidationFailure', 'InterestTimeout'}
         else:
             allowed = {'data' if acc else 'ValidationFailure'} | ({'InterestTimeout'} if vdone >= deadline - 1 else set())
+            if vdone > deadline + 1 and label in ('data', 'ValidationFailure'):
+                # (known finding, see data_item: the legacy front-end awaits the validator outside the lifetime)
+                r.bad(f'C05/legacy/pair/validator-outlived-deadline/{"payload-returned" if label == "data" else "verdict-delivered"}',
+                      f'validator finished at {vdone} ms, deadline {deadline} ms, outcome {label}')
+            elif vdone > deadline + 1:
+                allowed = {'InterestTimeout'}
         if label == 'data' and (not acc or not h.validator_calls or h.validator_calls[0][1] is None):
             r.bad(f'C05/{fe}/pair/returned-without-own-validator-accepting/{sub["verdict"]!r}',
                   f'own validator calls {h.validator_calls}; siblings {[x["verdict"] for x in it["subs"]]}')
